@@ -125,7 +125,9 @@ def plan(rng, tier):
     elif r < 0.93:
         def st():
             return sorted(set(g.keylist(0, 6)))
-        op = ["resolve", st(), st(), st()]
+        op = ["resolve", st(), st(), st(),
+              rng.choice([[0, 0, 0], [0, 0, 0], [1, 1, 1], [1, 2, 1],
+                          [1, 1, 2], [0, 1, 0], [1, 0, 1]])]
     else:
         op = ["setstate", rng.choice(["fresh", "live", "live"])]
     mode = "hook"
